@@ -262,6 +262,28 @@ func dialectFraming() {
 			} else if err != nil || cnt != len(want) || strings.Join(d2.Dialects, "\x00") != strings.Join(names, "\x00") || len(d2.Dialects) != len(names) {
 				r.Violation("dialects.Unmarshal:framing", fmt.Sprintf("reference encoding of %d dialects decodes to %q (n=%d err=%v)", n, d2.Dialects, cnt, err), cs)
 			}
+			// a value copy of a decoded list that then decodes another negotiate request must leave the
+			// original with its own dialects: it still lists and re-encodes what it decoded (C04-r9-1)
+			if n >= 1 && !p && err == nil && len(d2.Dialects) == len(names) {
+				other := make([]string, 0, n)
+				for i := n - 1; i >= 0; i-- {
+					other = append(other, "~"+names[i])
+				}
+				cp := *d2
+				var again []byte
+				var err2, err3 error
+				p2, pv2, st2 := mon.Guard(func() {
+					_, err2 = cp.Unmarshal(refDialects(other))
+					again, err3 = d2.Marshal()
+				})
+				r.Eval(1)
+				cs2 := map[string]any{"dialects": names, "decoded_into_copy": other, "ref_wire": mon.FullHex(want)}
+				if p2 {
+					r.Violation("dialects.Unmarshal:value-copy:panic", fmt.Sprintf("%v at %s", pv2, mon.TopLibFrame(st2)), cs2)
+				} else if err2 == nil && (strings.Join(d2.Dialects, "\x00") != strings.Join(names, "\x00") || err3 != nil || !bytes.Equal(again, want)) {
+					r.Violation("dialects.Unmarshal:value-copy-rewritten", fmt.Sprintf("after b := *a; b.Unmarshal(other list of %d), a lists %q and re-encodes as % x (err=%v); a decoded %q", n, d2.Dialects, again, err3, names), cs2)
+				}
+			}
 			r.Nontrivial(fmt.Sprintf("dialects|%d|%d", n, t))
 		}
 	}
